@@ -4,7 +4,7 @@ STRICT = {"R-LIN-ANON", "R-LIN-VAR", "R-LIN-PATH", "R-EXPR-STORE", "R-REC-FWD"}
 
 import ast
 
-from .. import compq, placement, pyq
+from .. import compq, hysexp, placement, pyq
 from ..pysrc import dotted, fold, norm
 from .c01 import check_rtemp
 
@@ -43,11 +43,15 @@ def check(ctx, src):
         doc = d.items[3]
         kv = {doc.items[i].val: doc.items[i + 1] for i in range(1, len(doc.items) - 1, 2) if doc.items[i].kind == "kw"}
         nl = kv.get("nullary")
-        body = d.items[4]
-        first = body.items[2] if body.head() == "if" else None
-        ctx.check(nl is not None and nl.val == want and first is not None and first.src() == want, "BOOL-POLARITY", f"hy/pyops.hy|{name}|nullary",
-                  f"hy.pyops.{name}: documented nullary {nl.val if nl else None}, body returns {first.src() if first else None}; the macro returns {want}", "hy/pyops.hy", d.line,
-                  detail=f"{want} three ways")
+        ll = d.items[2]
+        rest = next((ll.items[i + 1].val for i in range(len(ll.items) - 1) if ll.items[i].is_sym("#*")), None)
+        rest = rest or next((x.items[1].val for x in ll.items if x.kind == "expr" and x.head() == "unpack-iterable" and len(x.items) == 2), None)
+        first = hysexp.value_for_count(d.items[-1], rest, 0) if rest else None
+        ctx.decide("BOOL-POLARITY", f"hy/pyops.hy|{name}|nullary doc", None if nl is None else nl.val == want, f"hy.pyops.{name}: documented nullary value {nl.val if nl else None}; the macro returns {want}",
+                   "hy/pyops.hy", d.line, detail=want)
+        ctx.decide("BOOL-POLARITY", f"hy/pyops.hy|{name}|nullary", None if first is None else first.src() == want,
+                   f"hy.pyops.{name} returns {first.src() if first else None} for no arguments; the macro returns {want}", "hy/pyops.hy", d.line,
+                   witness=f"(hy.pyops.{name}) differs from ({name})", detail=f"{want}")
     # --- order
     loop = next((n for n in pyq.walk_no_nested(f) if isinstance(n, ast.For)), None)
     ctx.need(loop is not None, "operand loop not found")
